@@ -129,6 +129,38 @@ def run(c, facts, tier):
                         m = re.search(r"OpenPort\{mutex:(v[+-]?\d*),port:(v[+-]?\d*)\}", kv[-1])
                         ok = bool(m) and m.group(1) != m.group(2)
                         c.ob("C16.delegation", "%s::%s" % (plain, meth), "port record pairs a fresh port with its own fresh mutex", ok, "record %s" % kv[-1], nontrivial=False)
+    # one mutex per destination: a (port, mutex) record is created only when the cache for that destination is known to be
+    # empty on that path, it is stored in the cache on the same path, and no path of the manager is left unmodelled
+    for M in codegen.MANAGERS:
+        for meth in ("get_printer", "get_file_printer"):
+            site = "%s::%s" % (M, meth)
+            for p in mgr.paths(facts, M, meth):
+                unk = p.row.get("unknown") or []
+                if unk:
+                    c.ob("C16.delegation", site, "path fully modelled [%s]" % (p.cond or "")[:50], False, "the path contains constructs the interpreter cannot follow (%s): which mutex protects the port on later calls is not decided" % unk[:2], witness="-print -print -print (three stdout printers)")
+                mut = [t for fld, t, toks, forms in p.pushes if "(make-mutex)" in t]
+                for t in mut:
+                    mm = mgr.NAME.fullmatch(sexp.parse(emit.scheme_tokens(t))[0][0]) if sexp.parse(emit.scheme_tokens(t)) else None
+                    mi = mm.group(2).strip("{}") if mm else None
+                    cached = [e for e in p.row["effects"] if (e.startswith("set ") or e.startswith("insert ")) and mi is not None and re.search(r"OpenPort\{mutex:%s,port:[^{}]*\}" % re.escape(mi), e)]
+                    absent = False
+                    for e in cached:
+                        if e.startswith("set "):
+                            fld = e.split()[1]
+                            absent = absent or ("self.%s=None" % fld) in (p.cond or "")
+                        else:
+                            m_ = re.match(r"insert (\w+) \[(.*)\]$", e)
+                            if m_:
+                                key = codegen.split_top(m_.group(2))[0].strip()
+                                absent = absent or ("self.%s.get(%s)=None" % (m_.group(1), key)) in (p.cond or "")
+                    c.ob(
+                        "C16.delegation",
+                        site,
+                        "a mutex is created only for a destination that has none yet [%s]" % (p.cond or "")[:50],
+                        bool(cached) and absent,
+                        "binding `%s`: stored in the destination cache on this path: %s; the path condition says the cache was empty: %s — otherwise two printers on one port get two mutexes" % (t[:60], bool(cached), absent),
+                        witness="-print -print -print with 2 threads" if not (cached and absent) else None,
+                    )
     # C16.no-bypass: shared with C10.all-framed
     arows = codegen.expand(codegen.table(facts, "<Action as TargetScheme>::compile"))
     for key, row in sorted(arows.items()):
